@@ -442,10 +442,14 @@ class MessageAccumulator:
         """
         return self._waiter_future
 
-    def _pop_batch(self, tp):
+    def _pop_batch(self, tp, assign_sequence=True):
         batch = self._batches[tp].popleft()
         not_retry = batch.retry_count == 0
-        if self._txn_manager is not None and not_retry:
+        # A batch that is popped only to be failed (expired without a leader)
+        # must not take sequence numbers: it is never sent, the next batch of
+        # the partition would arrive with a gap and be rejected, as would
+        # every batch after it.
+        if self._txn_manager is not None and not_retry and assign_sequence:
             assert self._txn_manager.has_pid(), (
                 "We should have waited for it in sender routine"
             )
@@ -490,7 +494,7 @@ class MessageAccumulator:
                 if self._batches[tp][0].expired():
                     # batch is for partition is expired and still no leader,
                     # so set exception for batch and pop it
-                    batch = self._pop_batch(tp)
+                    batch = self._pop_batch(tp, assign_sequence=False)
                     if leader is None:
                         err = NotLeaderForPartitionError()
                     else:
